@@ -43,6 +43,7 @@ type system struct {
 	coords []coord // witness coordinates (integers / scalars)
 	conf   []coord // configuration coordinates (enum): keys, nonce, generator …; first label = default
 	chunks int     // number of work units one binding point is split into
+	chunkT int     // the same in the thorough tier (0 = chunks)
 	cheap  bool    // pure curve arithmetic: the full lattice is used in every tier
 	build  func(pt point) *statement
 	prove  func(h *hash.Hash, st *statement) interface{}
@@ -322,7 +323,7 @@ func systems() []*system {
 		}})
 
 	// ---- mul ---------------------------------------------------------------------------------
-	cmx := coord{name: "x", kind: cL}
+	cmx := coord{name: "x", kind: cPlain} // "X = x is the plaintext of Public.X": any plaintext
 	l = append(l, &system{name: "mul", coords: []coord{cmx}, conf: []coord{confKeys, confNonce}, chunks: 3,
 		noRange: "the paper's Πmul proves no range for x",
 		build: func(pt point) *statement {
@@ -416,7 +417,7 @@ func systems() []*system {
 		}})
 
 	// ---- mod ---------------------------------------------------------------------------------
-	l = append(l, &system{name: "mod", conf: []coord{confKeys3}, chunks: 3, noRange: "responses are residues",
+	l = append(l, &system{name: "mod", conf: []coord{confKeys3}, chunks: 3, chunkT: 16, noRange: "responses are residues",
 		build: func(pt point) *statement {
 			ks := keysetByName(pt["keys"])
 			return &statement{pub: &zkmod.Public{N: ks.pk.N()}, priv: &zkmod.Private{P: ks.sk.P(), Q: ks.sk.Q(), Phi: ks.sk.Phi()}, alts: commonAlts()}
@@ -430,7 +431,7 @@ func systems() []*system {
 
 	// ---- prm ---------------------------------------------------------------------------------
 	confLambda := coord{name: "lambda", kind: cEnum, labels: []string{"rand", "0", "2", "phi-1"}}
-	l = append(l, &system{name: "prm", conf: []coord{confKeys3, confLambda}, chunks: 3, noRange: "responses are residues",
+	l = append(l, &system{name: "prm", conf: []coord{confKeys3, confLambda}, chunks: 3, chunkT: 8, noRange: "responses are residues",
 		build: func(pt point) *statement {
 			ks := keysetByName(pt["keys"])
 			phi := ks.sk.Phi()
